@@ -49,6 +49,19 @@ FAMILIES: Dict[str, Dict[str, Any]] = {
         "invariants": [],
         "properties": ["PTotalOrder", "PRoutingExact", "PFailureReported", "POneClosedNotice"],
     },
+    "Stats": {
+        "module": "MC_Stats",
+        "spec": "SSpec",
+        "const": dict(MaxModules=200, DynStart=100, MaxHosts=5, MaxMsgTypes=4, TrafficChunk=2, MaxActive=256,
+                      TimingOn="TRUE", Modes='{"inline", "deferred"}', Conns='{"a", "m"}',
+                      MaxQ=2, MaxDeaths=0, MaxEnv=4, TickSteps="{1, 2, 3}", MaxNow=7, AllowOpen="FALSE",
+                      AllowFin="FALSE", AllowRst="FALSE", GenDepth=100, AnyW="FALSE"),
+        "subst": {"Setup": "SSetup", "Alpha": "SAlpha"},
+        "quick": dict(MaxEnv=3, MaxNow=5),
+        "gen": dict(REAL, MaxEnv=8, MaxNow=24, TickSteps="{1, 2, 3, 11}"),
+        "invariants": [],
+        "properties": ["PTimingExact", "PTrafficPartition", "PSeqGapFree"],
+    },
     "Identity": {
         "module": "MC_Identity",
         "const": dict(MaxModules=6, DynStart=3, MaxHosts=5, MaxMsgTypes=10000, TrafficChunk=64, MaxActive=256,
@@ -76,7 +89,7 @@ def render(name: str, tier: str = "thorough", gen: bool = False, extra: Dict[str
     if extra:
         c.update(extra)
     c["HistOn"] = "TRUE" if gen else "FALSE"
-    lines = ["SPECIFICATION Spec", "CONSTANTS"]
+    lines = ["SPECIFICATION " + fam.get("spec", "Spec"), "CONSTANTS"]
     for k, v in c.items():
         lines.append(f"  {k} = {v}")
     for k, v in fam["subst"].items():
